@@ -173,7 +173,7 @@ def total(ctx: Any) -> List[Ob]:
         esc = mr.escaping(r)
         if not esc:
             obs.append(ob(R, r, f'{r.qual} boundary', 'no exception can leave the decoder boundary', True, f'{mr.stats()["implicit_sources"]} implicit and {mr.stats()["explicit_raise_sites"]} explicit sources contained'))
-        for k, o in esc.items():
+        for (k, _w, _l), o in esc.items():
             d = o.describe()
             obs.append(ob(R, r, d[-1].split('`')[1] if '`' in d[-1] else d[-1], f'no exception can leave the decoder boundary ({k.split(".")[-1]} is not contained by the decode handlers)', False, k, d))
     # the handlers guard with the DECODE_EXCEPTIONS tuple
